@@ -768,6 +768,49 @@ pub fn mutate_json(js: &str, m: &Value, group: &str) -> Result<Vec<String>, Stri
             Ok((0..js.len()).step_by(step).map(|l| js[..l].to_string()).collect())
         }
         "extend" => Ok(vec![format!("{js}0"), format!("{js}{js}")]),
+        "shape" => {
+            let doc: Value = serde_json::from_str(js).map_err(|e| e.to_string())?;
+            let class = gets(m, "class");
+            // the object that carries the fields: the document itself, or the single value of an enum wrapper
+            let text = |v: &Value| serde_json::to_string(v).unwrap();
+            let outs: Vec<String> = match class {
+                "dupkey" => match &doc {
+                    Value::Object(o) if !o.is_empty() => {
+                        let (k, v) = o.iter().next().unwrap();
+                        let body = text(&doc);
+                        vec![format!("{},{}:{}}}", &body[..body.len() - 1], text(&Value::String(k.clone())), text(v)),
+                             format!("{{{}:{},{}", text(&Value::String(k.clone())), text(v), &body[1..])]
+                    }
+                    _ => vec![format!("[{js},{js}]")],
+                },
+                "extrakey" => match &doc {
+                    Value::Object(_) => {
+                        let body = text(&doc);
+                        vec![format!("{},\"zz_unknown\":1}}", &body[..body.len() - 1]), format!("{{\"0\":null,{}", &body[1..])]
+                    }
+                    _ => vec![format!("{{\"value\":{js}}}")],
+                },
+                "reorder" => match &doc {
+                    Value::Object(o) if o.len() > 1 => {
+                        let mut items: Vec<String> = o.iter().map(|(k, v)| format!("{}:{}", text(&Value::String(k.clone())), text(v))).collect();
+                        items.reverse();
+                        vec![format!("{{{}}}", items.join(","))]
+                    }
+                    _ => vec![js.to_string()],
+                },
+                "array" => match &doc {
+                    Value::Object(o) => vec![format!("[{}]", o.values().map(text).collect::<Vec<_>>().join(",")), "[]".to_string()],
+                    _ => vec![format!("[{js}]")],
+                },
+                "null" => vec!["null".to_string(), js.replacen('"', "null,\"", 1)],
+                "number" => vec!["0".to_string(), "18446744073709551616".to_string(), "-1".to_string(), "1e400".to_string(), "true".to_string()],
+                "nested" => vec![format!("{{\"a\":{js}}}"), format!("[[{js}]]")],
+                "blanks" => vec![format!(" \n\t{js} \r\n"), js.replace(':', " : ").replace(',', " ,\n")],
+                "deep" => vec!["[".repeat(200) + &"]".repeat(200), "{\"a\":".repeat(150) + "1" + &"}".repeat(150)],
+                x => return Err(format!("unknown shape class {x}")),
+            };
+            Ok(outs)
+        }
         "point" | "scalar" | "hex" => {
             let mut doc: Value = serde_json::from_str(js).map_err(|e| e.to_string())?;
             let mut leaves = vec![];
@@ -922,11 +965,11 @@ where
         if let Dec::Split(p) = &d {
             return Outcome::fail(json!({"split": p, "type": tname, "codec": codec, "mut": m}), format!("the entry points of the {tname}/{codec} decoder disagree on one input: {p}"));
         }
-        if d.class() != want {
+        if !(want == "Any" && (d.class() == "Ok" || d.class() == "Err")) && d.class() != want {
             return Outcome::fail(json!({"res": d.class(), "type": tname, "codec": codec, "mut": m}), format!("spec predicts {want}, {tname}/{codec} decoder returned {}", d.class()));
         }
         if let Some(ws) = want_same {
-            if d.class() == "Ok" && (d == Dec::Same) != ws {
+            if want != "Any" && d.class() == "Ok" && (d == Dec::Same) != ws {
                 return Outcome::fail(json!({"same": d == Dec::Same}), "decoded value equality with the original: not as the spec predicts");
             }
         }
